@@ -21,7 +21,7 @@ from hplsim import core, gen, seams
 PROP = 'C07'
 
 TIERS = {
-    'quick': dict(runs=800, calls=(10, 40), wall=80),
+    'quick': dict(runs=700, calls=(10, 40), wall=80),
     'thorough': dict(runs=90000, calls=(10, 60), wall=1500),
 }
 
@@ -251,7 +251,14 @@ def _fault_text(sim, family):
     """Fault texts: each aborts the pipeline at a chosen stage. Returns (text, tag)."""
     k = sim.weighted('fkind', [(2, 'F1a_unicode'), (2, 'F1a_tokens'), (4, 'F1b_mutation'), (1, 'F1c_dupmeta'),
                                (2, 'F1d_type'), (2, 'F1e_sanity'), (1.5, 'F1f_function'), (0.6, 'F1g_keywordish'),
-                               (1.2, 'F1h_unterminated')])
+                               (1.2, 'F1h_unterminated'), (1.6 if family == 'property' else 0, 'F1i_ownalias')])
+    if k == 'F1i_ownalias':
+        # an event's own alias used where a message cannot be (it is rewritten to the message itself
+        # when the event is built, so these fail deep inside a copy-with-changes)
+        use = sim.pick('ownuse', ('v in {@X, 1}', 'v in {@X}', '@X > 1', 'xs[@X] > 0', 'abs(@X) > 0', 'x in [@X to 2]', 'max({1, @X}) > 0',
+                                  'forall i in {@X, 1}: (@i > 0)', 'not @X', '@X.x > @X', '@X = @X', 'sum({@X.x, @X}) > 0', 'v in {1, @X.x, @X}'))
+        return sim.pick('ownshape', ('globally: no a as X { %s }', 'after a as X { %s }: no b', 'globally: no (a as X { %s } or b)',
+                                     'globally: b causes a as X { %s }', 'until a as X { %s }: some b')) % use, k
     if k == 'F1h_unterminated':
         # a forgotten closing quote (or bracket) with a tail of varying length on the same line
         tail = ' '.join(sim.pick('tailw', ('base_link', 'and', '(linear.x', '>', '0.0', 'or', 'angular.z', '<', '1)', 'x', 'y', '@A.k'))
